@@ -543,7 +543,7 @@ def run_check(prop, tier, gen, theorems_file, what, level_rule, extra=None):
                 "checker_cmd": "cd coq && make %s Extract_json.vo (coqc 8.16.1) ; coqc -Q . Qv %s for Print Assumptions" % (theorems_file.replace(".v", ".vo"), theorems_file),
                 "trusted_base": vlib.TRUSTED_BASE_COMMON + [
                     "tools/gentables_json.cpp (JSON notation constants)",
-                    "modelled (coq/JsonModel.v): JSON.hpp Parse/parseObject/parseArray/parseValue, JSONUtils.hpp UnEscape/Escape, StringUtils TrimLeft, Unicode ToUTF, the scanner part of Digit::stringToNumber + parseExponent + HexStringToNumber, Value::Stringify and its writers; NOT modelled: the value of real numbers (both sides print R), NumberToString for reals, HArray internals (insert-or-replace as an association list), memory management",
+                    "modelled (coq/JsonModel.v): JSON.hpp Parse/parseObject/parseArray/parseValue, JSONUtils.hpp UnEscape/Escape, StringUtils TrimLeft, Unicode ToUTF, the scanner part of Digit::stringToNumber + parseExponent + HexStringToNumber, Value::Stringify and its writers; the text of a double leaf is DigitModel.real_to_string (the digit component's model of Digit::RealToString, 17 digits, Default format) and the C08 run compares the whole document text including it; NOT modelled: the value of real numbers in the dump (both sides print R), HArray internals (insert-or-replace as an association list), memory management",
                     "the tree to be described by the model is /repo with the repairs %s applied" % PATCHES]}
     exe, msg = build_driver()
     if exe is None:
